@@ -984,6 +984,14 @@ class Engine:
                 self.call(exit_, [cm, None, None, None], {})
             return
         if isinstance(cm, Token) and cm.path.startswith("cm:"):
+            if cm.path == "cm:DisableTorchFunctionSubclass":
+                old = self.ps.get("tf_disabled")
+                self.ps["tf_disabled"] = True
+                try:
+                    self._with(st, i + 1, env)
+                finally:
+                    self.ps["tf_disabled"] = old
+                return
             self._with(st, i + 1, env)
             return
         raise Unsupported(f"with on {cm!r}", st)
